@@ -311,6 +311,13 @@ func genC17(r *rand.Rand, tier string) []Case {
 	for i := 0; i < nh; i++ {
 		keys := [][]byte{[]byte("a"), []byte("b"), []byte("c")}
 		c := &c17Case{Keys: keys, Opts: dbOpts{MemstoreBytes: 500000, Threshold: 10, MaxSize: 5 << 30, RatioPct: 20, WBuf: 4096, RBuf: 4096, AsyncWAL: i%2 == 0}}
+		// on a fresh database: two generations right behind each other, the second deletes a key of the first
+		c.Steps = append(c.Steps, dbStep{Op: "put", K: keys[0], V: []byte("first-a")}, dbStep{Op: "putb", K: keys[1], V: []byte("first-b")}, dbStep{Op: "rotnw"},
+			dbStep{Op: []string{"del", "delb"}[i%2], K: keys[0]}, dbStep{Op: "rotnw"}, dbStep{Op: "get", K: keys[0]}, dbStep{Op: "getb", K: keys[1]})
+		if i%2 == 0 {
+			o := c.Opts
+			c.Steps = append(c.Steps, dbStep{Op: "reopen", Opts: &o}, dbStep{Op: "get", K: keys[0]}, dbStep{Op: "getb", K: keys[0]})
+		}
 		for j := 0; j < 10+r.Intn(20); j++ {
 			k, k2 := keys[j%3], keys[(j+1)%3]
 			c.Steps = append(c.Steps, dbStep{Op: []string{"put", "putb"}[j%2], K: k, V: []byte(fmt.Sprintf("burst-%04d", j))}, dbStep{Op: "rotnw"})
